@@ -134,7 +134,7 @@ REQUIRED_IMPL_CLASSES = [
     "closest-exclude:stored-object-itself", "closest-exclude:fresh-object-with-that-id", "closest-k:default",
     "refresh-class:one", "refresh-class:few", "refresh-class:all", "refresh-class:none",
     "genid-pipeline-vs-cpython:overflow", "genid-pipeline-vs-cpython:in-range", "real-node-id:ipv4", "real-node-id:ipv6",
-    "community-answer:from-another-ip", "community-answer:from-the-asked-address", "two-threads:worker-waited-at-the-lock",
+    "community-find:answered,neighbourhood-mixed-good-and-unknown", "community-answer:from-another-ip", "community-answer:from-the-asked-address", "two-threads:worker-waited-at-the-lock",
     "community-op:request", "community-op:discover", "community-op:churn", "community-op:move", "community-op:move-self",
     "rtt:zero", "rtt:sub-millisecond", "rtt:sub-second", "rtt:one-second-or-more", "profile:deep", "profile:clustered",
 ]
@@ -1692,13 +1692,16 @@ def run_community(rec: dict, counts=None):
     from ipv8.dht import routing
     from ipv8.dht.churn import PingChurn
     from ipv8.dht.community import DHTCommunity
-    from ipv8.dht.payload import PingRequestPayload, PingResponsePayload
+    from ipv8.dht import community as dht_community
+    from ipv8.dht.payload import FindRequestPayload, FindResponsePayload, PingRequestPayload, PingResponsePayload
     from ipv8.keyvault.crypto import default_eccrypto
     from ipv8.messaging.interfaces.udp.endpoint import UDPv4Address
     from ipv8.peer import Peer
     from ipv8.test.mocking.endpoint import AutoMockEndpoint, MockEndpoint
     from ipv8.test.mocking.ipv8 import MockIPv8
-    install_clock(routing)
+    from ipv8.dht import churn as dht_churn
+    for mod in (routing, dht_community, dht_churn):     # one virtual clock for the table, the community and the churn strategy
+        install_clock(mod)
     AutoMockEndpoint.SEND_INET_EXCEPTION_TO_LOOP = False
 
     def key(i):
@@ -1713,10 +1716,21 @@ def run_community(rec: dict, counts=None):
         others = [MockIPv8(Peer(key(1 + i)), DHTCommunity) for i in range(npeers)]
         addr = {i: UDPv4Address(*rec["addresses"][i]) for i in range(npeers)}
         sinks = []
+        opened = set()
         verdict = None
+        sent = []
+        real_ez_send = overlay.ez_send
+
+        def spy_ez_send(peer, *payloads, **kwargs):
+            sent.extend(p_ for p_ in payloads if isinstance(p_, FindResponsePayload))
+            return real_ez_send(peer, *payloads, **kwargs)
+        overlay.ez_send = spy_ez_send
+        global VNOW
+        vnow0 = VNOW
         try:
             for idx, op in enumerate(rec["ops"]):
                 kind = op[0]
+                VNOW += 1.0         # the virtual clock moves on (request rate limiting looks at it)
                 if kind == "request":       # a signed ping-request of peer i arrives from its current address
                     i = op[1]
                     sinks.append(MockEndpoint(addr[i], addr[i]))
@@ -1747,6 +1761,36 @@ def run_community(rec: dict, counts=None):
                             overlay.on_packet((src, packet))
                             if counts is not None:
                                 counts["community-answer:" + ("from-another-ip" if op[2] else "from-the-asked-address")] += 1
+                elif kind == "find":        # the network-facing closest-nodes query: a signed find-request of peer i for op[2]
+                    i, target = op[1], op[2].to_bytes(W // 8, "big")
+                    for a_ in [addr[i]] + [n.address for rt_ in overlay.routing_tables.values() for b_ in rt_.trie.values() for n in b_.nodes.values()]:
+                        if a_ not in opened:        # the puncture request goes to a stored node: somebody has to listen there
+                            opened.add(a_)
+                            sinks.append(MockEndpoint(a_, a_))
+                            sinks[-1].open()
+                    del sent[:]
+                    packet = others[i].overlay.ezr_pack(FindRequestPayload.msg_id, FindRequestPayload(idx % 65000, addr[i], target, 0, True))
+                    overlay.on_packet((addr[i], packet))
+                    if not sent:
+                        if counts is not None:
+                            counts["community-find:no-response(requester-rate-limited-or-other-send-path)"] += 1
+                    else:
+                        rt = overlay.get_routing_table(Peer(others[i].my_peer.public_key, addr[i]))
+                        asker = routing.calc_node_id(addr[i], others[i].my_peer.mid)
+                        im = _table_view(routing, rt)
+                        kmax = getattr(dht_community, "MAX_NODES_IN_FIND", 8)
+                        live, want = im.brute_closest(op[2], kmax, asker)
+                        got = list(sent[-1].nodes)
+                        statuses = {x.status for x in want}
+                        if counts is not None:
+                            counts["community-find:answered,neighbourhood-" + ("mixed-good-and-unknown" if len(statuses) > 1 else "uniform")] += 1
+                        if [x.id for x in got] != [x.id for x in want]:
+                            verdict = ("DHTCommunity.on_find_request:not-k-closest-nearest-first",
+                                       f"community op {idx}: the find-response for target {bits(op[2])[:20]}.. lists {len(got)} nodes with XOR distances "
+                                       f"{[(int.from_bytes(x.id, 'big') ^ op[2]).bit_length() for x in got]} (bit lengths); the {kmax} nearest live nodes other "
+                                       f"than the requester, nearest first, have {[(int.from_bytes(x.id, 'big') ^ op[2]).bit_length() for x in want]}"
+                                       " [real DHTCommunity]")
+                            break
                 elif kind == "churn":
                     strategy.take_step()
                 elif kind == "move":        # peer i continues from another address
@@ -1780,15 +1824,19 @@ def run_community(rec: dict, counts=None):
                 if verdict:
                     break
         finally:
+            VNOW = vnow0
             for s_ in sinks:
                 s_.close()
             for o in [me, *others]:
                 await o.stop()
         return verdict
+    import logging
     loop = asyncio.new_event_loop()
+    logging.disable(logging.CRITICAL)
     try:
         return loop.run_until_complete(main())
     finally:
+        logging.disable(logging.NOTSET)
         loop.close()
 
 
@@ -1811,8 +1859,10 @@ def community_histories(ctx: Ctx, n: int):
                 ops.append(("request", rng.randrange(npeers)))
             elif x < 0.50:
                 ops.append(("discover", rng.randrange(npeers)))
-            elif x < 0.60:
+            elif x < 0.58:
                 ops.append(("answer", rng.randrange(npeers), rand_addr() if rng.random() < 0.6 else None))
+            elif x < 0.64:
+                ops.append(("find", rng.randrange(npeers), rng.getrandbits(W)))
             elif x < 0.70:
                 ops.append(("churn",))
             elif x < 0.88:
@@ -1827,6 +1877,8 @@ def community_histories(ctx: Ctx, n: int):
             ops += [("move", i, rand_addr()), ("request", i)]
         ops += [("move-self", rand_addr())] + [("request", i) for i in range(npeers)] + [("churn",)]
         ops += [("answer", i, rand_addr() if i % 2 else None) for i in range(npeers)] + [("churn",)]
+        # network-facing closest-nodes queries over the final table (some nodes have answered us = GOOD, others only asked = UNKNOWN)
+        ops += [("find", rng.randrange(npeers), rng.getrandbits(W)) for _ in range(12)]
         rec = {"kind": "community", "key_seed": rng.getrandbits(24), "peers": npeers,
                "addresses": [rand_addr() for _ in range(npeers)], "ops": [list(o) for o in ops]}
         counts = collections.Counter()
